@@ -10,45 +10,136 @@ struct Placed {
     toks: Vec<(u32, u32, u32)>,
 }
 
-fn write_project(dir: &Path, cases: &[&str]) -> Vec<Placed> {
-    // cases: the `text` fields
+struct TextBuf {
+    text: String,
+    line: u32,
+}
+impl TextBuf {
+    fn new() -> TextBuf {
+        TextBuf { text: String::new(), line: 0 }
+    }
+    fn push(&mut self, s: &str) {
+        self.text.push_str(s);
+        self.text.push('\n');
+        self.line += 1;
+    }
+    /// the lines of one process; returns its first line
+    fn process(&mut self, text: &str) -> u32 {
+        let l0 = self.line;
+        for l in text.split('~') {
+            self.push(l);
+        }
+        l0
+    }
+}
+const ENTITY_PORTS: &str = "  port ( p0 : in bit ; p1 : in integer range 0 to 3 ; p2 : in bit_vector ( 3 downto 0 ) ; q0 : out bit ; q1 : out bit_vector ( 3 downto 0 ) ; q2 : out integer range 0 to 3 ; io0 : inout bit ; bf0 : buffer bit ; pr0 : in rec_t ; qr0 : out rec_t ; qa0 : out arr_t ; lk0 : linkage bit ) ;";
+
+/// every place a process can occur in an architecture: directly in the statement part, in a block, in an
+/// if / for / case generate statement, nested; `k` selects the place; returns the first line of the process
+fn emit_placed(tb: &mut TextBuf, k: usize, tag: &str, text: &str) -> u32 {
+    match k % 6 {
+        0 => tb.process(text),
+        1 => {
+            tb.push(&format!("{}b : block begin", tag));
+            let l = tb.process(text);
+            tb.push("end block ;");
+            l
+        }
+        2 => {
+            tb.push(&format!("{}g : if true generate begin", tag));
+            let l = tb.process(text);
+            tb.push("end generate ;");
+            l
+        }
+        3 => {
+            tb.push(&format!("{}g : for gi in 0 to 1 generate begin", tag));
+            let l = tb.process(text);
+            tb.push("end generate ;");
+            l
+        }
+        4 => {
+            tb.push(&format!("{}g : case kc generate", tag));
+            tb.push("when 2 => begin");
+            let l = tb.process(text);
+            tb.push("end ;");
+            tb.push("when others =>");
+            tb.push("end generate ;");
+            l
+        }
+        _ => {
+            tb.push(&format!("{}g : if true generate begin", tag));
+            tb.push(&format!("{}b : block begin", tag));
+            tb.push(&format!("{}h : for gj in 0 to 0 generate begin", tag));
+            let l = tb.process(text);
+            tb.push("end generate ;");
+            tb.push("end block ;");
+            tb.push("end generate ;");
+            l
+        }
+    }
+}
+/// an entity whose statement part holds the passive processes
+fn emit_passive_entity(tb: &mut TextBuf, name: &str, procs: &[&str]) -> Vec<u32> {
+    tb.push("use work.c20_pkg.all ;");
+    tb.push(&format!("entity {} is", name));
+    tb.push(ENTITY_PORTS);
+    tb.push("begin");
+    let lines = procs.iter().map(|t| tb.process(t)).collect();
+    tb.push("end entity ;");
+    lines
+}
+fn is_passive_flags(flags: &str) -> bool {
+    flags.contains('P')
+}
+
+/// cases: (flags, text)
+fn write_project(dir: &Path, cases: &[(&str, &str)]) -> Vec<Placed> {
     let _ = std::fs::remove_dir_all(dir);
     std::fs::create_dir_all(dir).unwrap();
     std::fs::write(dir.join("pkg.vhd"), PRELUDE_PKG).unwrap();
     let mut placed = Vec::new();
     for (fi, chunk) in cases.chunks(PROCS_PER_ARCH).enumerate() {
-        let mut text = String::new();
-        let mut line = 0u32;
-        let mut push = |s: &str, text: &mut String, line: &mut u32| {
-            text.push_str(s);
-            text.push('\n');
-            *line += 1;
-        };
-        push("use work.c20_pkg.all ;", &mut text, &mut line);
-        push(&format!("architecture a{} of c20_e is", fi), &mut text, &mut line);
-        for l in ARCH_DECLS.lines() {
-            push(l, &mut text, &mut line);
-        }
-        push("begin", &mut text, &mut line);
-        for c in chunk {
-            let lines: Vec<&str> = c.split('~').collect();
-            placed.push(Placed { fname: format!("a{}.vhd", fi), line0: line, nlines: lines.len() as u32, toks: token_table(&lines) });
-            for l in &lines {
-                push(l, &mut text, &mut line);
+        let fname = format!("a{}.vhd", fi);
+        let mut tb = TextBuf::new();
+        let mut line0: Vec<u32> = vec![0; chunk.len()];
+        let passive: Vec<usize> = (0..chunk.len()).filter(|i| is_passive_flags(chunk[*i].0)).collect();
+        if !passive.is_empty() {
+            let texts: Vec<&str> = passive.iter().map(|i| chunk[*i].1).collect();
+            let ls = emit_passive_entity(&mut tb, &format!("c20_p{}", fi), &texts);
+            for (i, l) in passive.iter().zip(ls) {
+                line0[*i] = l;
             }
         }
-        push("end architecture ;", &mut text, &mut line);
-        std::fs::write(dir.join(format!("a{}.vhd", fi)), text).unwrap();
+        tb.push("use work.c20_pkg.all ;");
+        tb.push(&format!("architecture a{} of c20_e is", fi));
+        for l in ARCH_DECLS.lines() {
+            tb.push(l);
+        }
+        tb.push("begin");
+        for (i, (flags, text)) in chunk.iter().enumerate() {
+            if !is_passive_flags(flags) {
+                line0[i] = emit_placed(&mut tb, i, &format!("w{}", i), text);
+            }
+        }
+        tb.push("end architecture ;");
+        for (i, (_, text)) in chunk.iter().enumerate() {
+            let lines: Vec<&str> = text.split('~').collect();
+            placed.push(Placed { fname: fname.clone(), line0: line0[i], nlines: lines.len() as u32, toks: token_table(&lines) });
+        }
+        std::fs::write(dir.join(fname), tb.text).unwrap();
     }
     placed
 }
 
-fn analyse_dir(dir: &Path) -> Result<Vec<Diagnostic>, String> {
+/// library names in the project configuration: the emission filter of the lint looks the library up by name
+const LIB_NAMES: [&str; 4] = ["MyLib", "lib", "DSP_Core2", "WORKLIB"];
+
+fn analyse_dir(dir: &Path, libname: &str) -> Result<Vec<Diagnostic>, String> {
     let mut msgs = NullMessages;
     let mut cfg = Config::default();
     cfg.load_external_config(&mut msgs, Some("/repo/vhdl_libraries".to_string()));
-    let toml = "[libraries]\nlib.files=['*.vhd']\n";
-    let c2 = Config::from_str(toml, dir).map_err(|e| format!("config: {}", e))?;
+    let toml = format!("[libraries]\n{}.files=['*.vhd']\n", libname);
+    let c2 = Config::from_str(&toml, dir).map_err(|e| format!("config: {}", e))?;
     cfg.append(&c2, &mut msgs);
     let res = std::panic::catch_unwind(std::panic::AssertUnwindSafe(|| {
         let mut p = Project::from_config(cfg, &mut msgs);
@@ -76,10 +167,10 @@ fn quoted_names(msg: &str) -> Vec<String> {
 }
 
 /// runs the implementation on the processes (text fields); one result line per process
-fn run_impl(dir: &Path, texts: &[&str]) -> (Vec<String>, Vec<String>) {
+fn run_impl(dir: &Path, texts: &[(&str, &str)], libname: &str) -> (Vec<String>, Vec<String>) {
     let placed = write_project(dir, texts);
     let mut errors = Vec::new();
-    let diags = match analyse_dir(dir) {
+    let diags = match analyse_dir(dir, libname) {
         Ok(d) => d,
         Err(e) => {
             return (texts.iter().map(|_| format!("E:{}", e)).collect(), vec![e]);
@@ -205,6 +296,7 @@ impl B {
                 allow_outside: false,
                 allow_outact: false,
                 allow_heur: false,
+                passive: false,
                 loopd: 0,
                 lvars: Vec::new(),
                 label: String::new(),
@@ -614,6 +706,22 @@ fn corpus_cases() -> Vec<Case> {
         let body = vec![S::If(vec![(c, vec![s1])], Vec::new()), S::Call((p.sp().0, e), p, args)];
         v.push(b.finish("corpus.P2", "Fc", kw, listed, names, body));
     }
+    {
+        // a passive process in the statement part of an ENTITY (seeded change C20-m10): only ports are visible
+        //   assert q0 = '1' ; assert io0 = '1' ;   list ( p0 , bf0 )
+        let mut b = B::new();
+        let (kw, listed, names) = b.header(&["p0", "bf0"]);
+        b.g.em.nl(4);
+        b.g.em.tok("assert");
+        let c1 = b.cmp("q0", "'1'");
+        b.g.em.tok(";");
+        b.g.em.nl(4);
+        b.g.em.tok("assert");
+        let c2 = b.cmp("io0", "'1'");
+        b.g.em.tok(";");
+        let body = vec![S::Assert(c1, None, None), S::Assert(c2, None, None)];
+        v.push(b.finish("corpus.E1", "FPc", kw, listed, names, body));
+    }
     // clocked shapes: the edge test in every operand position `is_likely_clocked` descends into
     v.push(B::clocked_case("corpus.K1", false, &|b| {
         // clk = '1' and clk ' event
@@ -689,6 +797,13 @@ fn main() {
     let seed: u64 = args[2].parse().unwrap_or(1);
     let n: usize = args[3].parse().unwrap_or(0);
     let workdir = Path::new(&args[4]);
+    if let Some(d) = mode.strip_prefix("dump:") {
+        // debugging aid: all diagnostics of the project in directory d
+        for x in analyse_dir(Path::new(d), "lib").unwrap_or_default() {
+            println!("{}:{}:{} {:?} {}", x.pos.source.file_name().display(), x.pos.range.start.line + 1, x.pos.range.start.character, x.code, x.message);
+        }
+        return;
+    }
     // incremental stage (linter cache): histories instead of single processes; <cases_out> is the base name of the outputs
     if mode == "hist" || mode == "histcorpus" || mode.starts_with("histfile:") {
         let hists: Vec<Hist> = if mode == "hist" {
@@ -745,8 +860,15 @@ fn main() {
     let per_project = PROCS_PER_ARCH * ARCHS_PER_PROJECT;
     let mut all_errors: Vec<String> = Vec::new();
     for (bi, chunk) in lines.chunks(per_project).enumerate() {
-        let texts: Vec<&str> = chunk.iter().map(|l| l.split('\t').nth(2).unwrap_or("")).collect();
-        let (out, errors) = run_impl(&workdir.join(format!("p{}", bi % 2)), &texts);
+        let texts: Vec<(&str, &str)> = chunk
+            .iter()
+            .map(|l| {
+                let mut f = l.split('\t');
+                let flags = f.nth(1).unwrap_or("");
+                (flags, f.next().unwrap_or(""))
+            })
+            .collect();
+        let (out, errors) = run_impl(&workdir.join(format!("p{}", bi % 2)), &texts, LIB_NAMES[bi % LIB_NAMES.len()]);
         for o in out {
             writeln!(fi, "{}", o).unwrap();
         }
